@@ -247,7 +247,8 @@ impl RegExpBuilder {
     #[pyo3(name = "build")]
     fn py_build(&mut self) -> String {
         let regexp = self.build();
-        if self.config.is_non_ascii_char_escaped {
+        // Verbose mode prints non-ASCII whitespace as Unicode escape sequences as well.
+        if self.config.is_non_ascii_char_escaped || self.config.is_verbose_mode_enabled {
             replace_unicode_escape_sequences(regexp)
         } else {
             regexp
